@@ -294,6 +294,11 @@ fn valid_position(t: &mut Tape) -> Option<Pos> {
     let mut p = if t.chance(1, 3) {
         let c = gen::curated();
         c[t.below(c.len())].pos.clone()
+    } else if t.chance(1, 6) {
+        // the longest texts a position can have (men and single empty squares alternating)
+        gen::plant_long_fen(t)?
+    } else if t.chance(1, 10) {
+        gen::plant_many_sliders(t)?
     } else {
         gen::setup_position(t)?
     };
